@@ -187,18 +187,22 @@ Section Guard.
         (match own_v s p n with
          | Some a => match s_vheap s a with Some vv => match vv_val vv with Some _ => true | None => false end | None => false end &&
                      forallb (fun u => opt_addr_eqb (resolve_v s u n) None || opt_addr_eqb (resolve_v s u n) (Some a)) (s_users s p)
-         | None => true end) &&
+         | None => (* Package.Export looks the name up in p's table, which also holds inherited entries: it would
+                      mark and push the inherited cell instead of interning a symbol of p *)
+                   opt_addr_eqb (resolve_v s p n) None end) &&
         (match own_f s p n with
          | Some a => forallb (fun u => opt_addr_eqb (resolve_f s u n) None || opt_addr_eqb (resolve_f s u n) (Some a)) (s_users s p)
          | None => true end)
     | OUnexport n p =>
         mem p P &&
+        (* Package.Unexport looks the name up in p's table: on an inherited entry it would clear the export
+           flag of the HOME package's cell (known finding), so p must own the cell or see nothing *)
         (match own_v s p n with
          | Some a => match s_vheap s a with Some vv => match vv_pkg vv with Some _ => true | None => false end | None => false end
-         | None => true end) &&
+         | None => opt_addr_eqb (resolve_v s p n) None end) &&
         (match own_f s p n with
          | Some a => match s_fheap s a with Some fi => N.eqb (fi_pkg fi) p | None => false end
-         | None => true end)
+         | None => opt_addr_eqb (resolve_f s p n) None end)
     | OSetq n _ | ODefvar n _ =>
         (* every user of the current package already sees the cell being set (SetIfHas pushes it) *)
         match resolve_v s (s_cur s) n with
@@ -208,7 +212,9 @@ Section Guard.
     | ODefun n _ =>
         match resolve_f s (s_cur s) n with
         | Some a => opt_addr_eqb (own_f s (s_cur s) n) (Some a)     (* redefinition of an own function *)
-        | None => opt_addr_eqb (own_v s (s_cur s) n) None            (* no exported-unbound variable of that name *)
+        | None => (* no exported-unbound variable of that name, own OR inherited: DefLambda reads the
+                     package's table, which holds inherited entries too (known finding) *)
+                  opt_addr_eqb (resolve_v s (s_cur s) n) None
         end
     | OMakunbound n =>
         match resolve_v s (s_cur s) n with
@@ -221,6 +227,19 @@ Section Guard.
         | None => true end
     end.
 End Guard.
+
+(* ---- name discipline of a history: a name is used either as a variable or as a function (as in the
+   harness: setq/defvar/makunbound and the variable queries on the names VN, defun/fmakunbound and the
+   calls on the names FN, VN and FN disjoint; export/unexport on either).  Without it `export` of a
+   function name makes `p:name` (read as a VARIABLE) the unbound marker: finding C13-unbound-marker-as-value ---- *)
+Definition sorted_op (VN FN : list name) (o : op) : bool :=
+  match o with
+  | OSetq n _ | ODefvar n _ | OMakunbound n => mem n VN
+  | ODefun n _ | OFmakunbound n => mem n FN
+  | OExport n _ | OUnexport n _ => mem n VN || mem n FN
+  | OInPkg _ | OUse _ _ | OUnuse _ _ => true
+  end.
+Definition disjoint_names (VN FN : list name) : bool := forallb (fun n => negb (mem n FN)) VN.
 
 Fixpoint srun (P : list pkgid) (VN FN : list name) (s : sstate) (ops : list op) : list (list qres) :=
   match ops with
